@@ -28,6 +28,10 @@ func genC15(r *h.Rng, tier string, idx int) *h.Plan {
 	p.Cfg["state"] = r.Pick([]string{"indexed", "linear"})
 	p.Cfg["cron"] = r.Pick([]string{"sim-persistent", "sim-ephemeral", "internal"})
 	p.Cfg["ctx"] = r.Pick([]string{"fresh", "fresh", "shared"})
+	// location-cache TTL (never only with the persistent simulated cron service:
+	// the System refuses a non-persistent cron together with locations that
+	// leave the cache)
+	p.Cfg["ttl"] = r.Pick([]string{"forever", "forever", "never"})
 	nl := r.Range(2, 3)
 	locs := []string{"S0", "S1", "S2"}[:nl]
 	p.Cfg["locs"] = toIface(locs)
@@ -41,7 +45,7 @@ func genC15(r *h.Rng, tier string, idx int) *h.Plan {
 	for i := 0; i < n; i++ {
 		loc := r.Pick(locs)
 		id := r.Pick(ids)
-		switch r.Weighted([]int{9, 2, 1, 3, 1, 1, 1, 1, 1}) {
+		switch r.Weighted([]int{9, 2, 1, 3, 1, 1, 1, 1, 1, 1}) {
 		case 0:
 			var sched string
 			switch r.Intn(4) {
@@ -84,6 +88,8 @@ func genC15(r *h.Rng, tier string, idx int) *h.Plan {
 			p.Ops = append(p.Ops, h.Op{K: "dupticks"}) // the cron service delivers every pending tick twice (SimCron only)
 		case 8:
 			p.Ops = append(p.Ops, h.Op{K: "staletick", Loc: loc, Id: id}) // a tick for an id arrives although nothing is registered (SimCron only)
+		case 9:
+			p.Ops = append(p.Ops, h.Op{K: "delete", Loc: loc}) // DeleteLocation: everything in it is gone, scheduled rules included
 		}
 		sleep(100, 4000)
 	}
@@ -168,7 +174,11 @@ func execC15(t *testing.T, plan *h.Plan, trace bool) *h.Result {
 		var eng *hs.SvcEngine
 		boot := func() {
 			var err error
-			eng, err = hs.NewSvcEngine(hs.SvcConfig{State: state, TTL: sys.Forever, MaxFacts: 100000}, store, mkCron())
+			ttl := sys.Forever
+			if plan.CfgS("ttl", "forever") == "never" && cronKind == "sim-persistent" {
+				ttl = sys.Never
+			}
+			eng, err = hs.NewSvcEngine(hs.SvcConfig{State: state, TTL: ttl, MaxFacts: 100000}, store, mkCron())
 			if err != nil {
 				panic(err)
 			}
@@ -303,6 +313,18 @@ func execC15(t *testing.T, plan *h.Plan, trace bool) *h.Result {
 					delete(items, key)
 				}
 			}
+			// "registered with the cron service exactly while it exists": what the
+			// (simulated) cron service holds must belong to a scheduled rule that has
+			// not been removed, replaced, cleared or deleted.  (A rule that merely
+			// expired may stay registered until a tick or a read notices.)
+			if simc != nil {
+				for _, key := range simc.Registered() {
+					it := items[key]
+					if it == nil || it.kind != "sched" {
+						fail("registration-outlives-rule", "registered", "%s: the cron service still holds a registration for %s, which is no scheduled rule any more", what, key)
+					}
+				}
+			}
 		}
 		for i, op := range plan.Ops {
 			opIdx = i
@@ -420,6 +442,13 @@ func execC15(t *testing.T, plan *h.Plan, trace bool) *h.Result {
 				}
 				for _, it := range all {
 					_ = it
+				}
+			case "delete":
+				eng.Sys.DeleteLocation(ctxFor(), op.Loc)
+				for k := range items {
+					if strings.HasPrefix(k, op.Loc+"/") {
+						endItem(k, now)
+					}
 				}
 			case "restart":
 				boot()
